@@ -33,7 +33,7 @@ FullText(fs) == Flatten([j \in 1..Len(fs) |-> FullToks[fs[j]]])
 \* every sequence up to the "full" length; beyond it only the one-token extensions of viable prefixes (a prefix that
 \* is already dead only grows longer dead texts: the first offending token of every rejected text is still visited)
 ClassFullLen == EnvInt("C19_CLSFULL", IF Quick THEN 4 ELSE 5)
-MaxClassLen == EnvInt("C19_CLS", IF Quick THEN 6 ELSE 7)
+MaxClassLen == EnvInt("C19_CLS", 6)
 FullFullLen == EnvInt("C19_FULLFULL", IF Quick THEN 2 ELSE 3)
 MaxFullLen == EnvInt("C19_FULL", IF Quick THEN 3 ELSE 4)
 
@@ -92,10 +92,12 @@ MutationsAt(bi, j) ==
     \cup (IF j <= Len(b) THEN {ReplaceTok(b, j, m) : m \in MutSet} \cup {DeleteTok(b, j), InsertTok(b, j, b[j])} ELSE {})
     \cup (IF j < Len(b) THEN {[b EXCEPT ![j] = b[j + 1], ![j + 1] = b[j]]} ELSE {})
     \cup (IF j = 1 THEN {b} ELSE {})
-\* deep bases are mutated at their ends and around the middle only in the quick tier
+\* deep bases are mutated at their ends and around the middle (quick), additionally at every 4th position (thorough)
 MutPositions(bi) ==
-  LET n == Len(MutBases[bi]) IN
-  IF Quick /\ bi >= FirstDeepBase THEN {1, 2, 3, n \div 2, n \div 2 + 1, n \div 2 + 2, n - 1, n, n + 1} ELSE 1..(n + 1)
+  LET n == Len(MutBases[bi])
+      ends == {1, 2, 3, n \div 2, n \div 2 + 1, n \div 2 + 2, n - 1, n, n + 1}
+  IN IF bi < FirstDeepBase THEN 1..(n + 1)
+     ELSE IF Quick THEN ends ELSE ends \cup {j \in 1..(n + 1) : j % 4 = 1}
 MutGroups == UNION {{<<bi, j>> : j \in MutPositions(bi)} : bi \in 1..Len(MutBases)}
 
 \* ---------------- values for JSON.stringify ------------------------------------------------------------
@@ -132,7 +134,7 @@ Depth(v) == CASE v.k = "arr" -> 1 + MaxSeq([j \in 1..Len(v.e) |-> Depth(v.e[j])]
 SmallKids == {VInt(1), Undef, VStr(<<233>>)}
 D1 == Lvl(LeafGrid) \cup LeafGrid \cup HardNums \cup Lvl(HardNums)
 D2 == Lvl(SmallKids \cup {VFn, Null} \cup Lvl(SmallKids))
-ShapeLeaves == IF Quick THEN {VInt(1)} ELSE {VInt(1), Undef, VStr(<<233>>), VFn}
+ShapeLeaves == IF Quick THEN {VInt(1)} ELSE {VInt(1), Undef}
 D3 == UNION {IF Quick THEN {v \in T3(l) : Depth(v) = 3 /\ Nodes(v) <= 7} ELSE T3(l) : l \in ShapeLeaves}
 \* key strings that need escapes
 KeyGrid == {KA, <<>>, U("a\"b\\c"), <<10>>, <<31>>, <<127>>, <<233>>, PairU, <<55357>>, <<56832>>, U("__proto__"), U("toJSON"), U("length")}
